@@ -278,10 +278,18 @@ def main(tier, replay=None):
     run.cov.setdefault('timing_s', {})['proof_stage'] = round(time.time() - t0, 1)
     if not proof_ok:
         run.notes.append(run.proof_problem)
-    ok, log = common.coq_build("theories/Optics/EntryTac.vo")
+    # finding F3 (Undulator R56): while it is listed `known` the faithful model is und_map (the code before the repair);
+    # once it is flipped to `fixed` the faithful model is und_map_fixed (= drift_map) and a deviation is a regression
+    f3_known = optics.f3_known(PID)
+    optics.set_undulator_variant(not f3_known)
+    run.cov["undulator_model"] = optics.undulator_variant_name()
+    ok, log = True, ""
+    for tgt in optics.COQ_TARGETS:
+        ok1, log1 = common.coq_build(tgt)
+        ok, log = ok and ok1, log + ("" if ok1 else log1)
     broken = []          # (name, detail, spec, E)
     if not ok:
-        broken.append(("coq build of Optics/EntryTac.vo (closed-form entry lemmas used by the correspondence)", log[-800:], None, None))
+        broken.append(("coq build of Optics/EntryTac.vo, Optics/UndFixed.vo (lemmas used by the correspondence)", log[-800:], None, None))
     try:
         optics.assert_constants()
     except optics.BrokenCorrespondence as ex:
@@ -362,6 +370,30 @@ def main(tier, replay=None):
         failing, errs = common.run_real_goals(PID, "corr", optics.PREAMBLE, gl, shard=shard, jobs=16)
     run.cov['timing_s']['coq_goals'] = round(time.time() - t1, 1)
     run.cov["traces_validated_against_impl"] += len(pts)
+    # Undulator points that disagree with the transcription selected by the status of F3: evaluate the OTHER transcription.
+    # F3 known + code equals the repaired map -> the finding no longer reproduces (note, no alarm: the lead flips the status);
+    # F3 fixed + code equals the old map      -> the repaired defect is back: stays broken, the oracle below has the input.
+    und_fail = [k for k in failing if pts[owner[k][0]][0]["cls"] == "Undulator"]
+    if und_fail and ok:
+        idxs = sorted({owner[k][0] for k in und_fail})
+        g2 = []
+        for idx in idxs:
+            s, E = pts[idx]
+            try:
+                g2 += optics.goals(realgen.build(s), E, und_fixed=f3_known)[0]
+            except Exception:
+                g2.append(("False", "idtac."))
+        f2, _ = common.run_real_goals(PID, "corr_und_other", optics.PREAMBLE, g2, shard=8, jobs=16)
+        other = optics.undulator_variant_name(f3_known)
+        if not f2:
+            run.cov["undulator_other_model_matches"] = other
+            if f3_known:
+                run.cov["known_findings_not_reproduced"].append(
+                    f"F3: Undulator.transfer_map equals {other} at all {len(idxs)} disagreeing points; the status of F3 is stale (flip it to fixed)")
+                run.notes.append("F3 is listed known but the code computes the repaired Undulator map")
+                failing = [k for k in failing if k not in und_fail]
+            else:
+                run.notes.append(f"F3 is listed fixed but Undulator.transfer_map equals {other}: the repaired defect is back")
     n_named = 0
     for k in failing[:8]:
         idx, mm = owner[k]
@@ -384,15 +416,19 @@ def main(tier, replay=None):
         broken.append((f"Coq model Optics/Maps.v vs transfer_map ({mm['kind']} goal)", errs.get(k, "")[-200:], pts[idx][0], pts[idx][1]))
 
     # ---- known findings: replay the stored inputs; classify oracle failures
-    replay_known(run)
+    regressed = replay_known(run)
     new = []
     for s, E, bad in oracle_bad:
         f = classify(s, bad)
         kf = f and common.known_signature_match(PID, lambda ent: ent["id"] == f)
         if kf:
             run.known(kf["what"])
+        elif f in regressed:
+            run.count("regression_hits_" + f)          # already reported with the stored input of the fixed finding
         else:
             new.append((s, E, bad))
+    if "F3" in regressed:    # the Undulator disagreement is explained by the regression just reported (with its input)
+        broken = [b for b in broken if not (b[2] and b[2]["cls"] == "Undulator")]
     run.cov["tested_only"] = ["agreement of the hand-written Coq model with transfer_map at the generated points (interval-checked, float64)",
                               "oracle: transfer_map vs matrix-exponential series of the Hamiltonian generator (1e-9 relative)",
                               "dipole pole-face (edge) maps are definition-level: the spec is the textbook hard-edge kick",
@@ -447,19 +483,32 @@ def main(tier, replay=None):
 
 
 def replay_known(run):
+    """replays the stored input of every listed finding.  known + still failing -> KNOWN-FINDING; known + passing -> note;
+    fixed + failing again -> VIOLATION (regression) with that input; returns the set of ids that regressed"""
+    regressed = set()
     for f in common.load_known_findings(PID):
-        if f.get("status") != "known":
+        r = f.get("replay")
+        if not r or "spec" not in r:
             continue
-        r = f["replay"]
+        bad, exc = [], None
         try:
             bad = oracle(r["spec"], r["energy"])
-            still = bool(bad) and classify(r["spec"], bad) == f["id"]
-        except Exception:
-            still = True
-        if still:
-            run.known(f["what"])
-        else:
-            run.cov["known_findings_not_reproduced"].append(f["id"])
+        except Exception as ex:
+            exc = repr(ex)
+        if f.get("status") == "known":
+            if exc or (bad and classify(r["spec"], bad) == f["id"]):
+                run.known(f["what"])
+            else:
+                run.cov["known_findings_not_reproduced"].append(f["id"])
+        elif f.get("status") == "fixed":
+            run.cov.setdefault("fixed_findings_replayed", []).append(f["id"])
+            if (exc or bad) and f["id"] not in regressed:
+                regressed.add(f["id"])
+                run.violation({"kind": "regression", "finding": f["id"], "what": f"fixed finding {f['id']} fails again on its stored input: " + f["what"],
+                               "spec": r["spec"], "energy": r["energy"], "exception": exc,
+                               "relation": "transfer_map(energy) == exp(L * S6.Hess(H)) (with edges / tilt / misalignment / kick as specified)",
+                               "deviations": [{"entry": [b[0], b[1]], "observed": b[2], "expected": b[3], "tol": b[4]} for b in bad[:12]]})
+    return regressed
 
 
 def do_replay(run, path):
